@@ -292,6 +292,7 @@ def run(ctx):
     ctx.merge(shipped(ctx))
     n = 900 if ctx.quick else 12000
     ctx.pmap(_shard, [(ctx.seed, s, n, ctx.known) for s in range(16)])
+    ctx.pmap(kind_probe, [(ctx.seed, i, i + 50) for i in range(0, 800, 50)])
     from harness import fuzz
 
     fuzz.campaign(ctx, "C08", ["numpy-debug"], runs=600 if ctx.quick else 30000, workers=8 if ctx.quick else 16)
@@ -300,3 +301,49 @@ def run(ctx):
 # ---- coverage-guided tier (harness/fuzz.py)
 def fuzz_strategy(variant):
     return cases()
+
+
+# ---- per-kind x dtype-combination probe (the random strategy mixes widths, but each (kind, left dtype, right dtype,
+# operand order) combination is rare; here every one is visited once per run)
+PROBE_UNARY = ["negative", "positive", "absolute", "sign", "sqrt", "square", "exp", "expm1", "log", "log1p", "sin", "cos", "tan", "sinh", "cosh", "tanh", "asin", "acos", "atan", "asinh", "acosh", "atanh", "floor", "ceil", "real", "imag", "conjugate"]
+PROBE_BINARY = ["add", "subtract", "multiply", "divide", "minimum", "maximum", "atan2", "copysign", "hypot", "pow", "complex", "lt", "le", "gt", "ge", "eq", "ne"]
+PROBE_TYPES = ["float16", "float32", "float64", "complex64", "complex128"]
+
+
+def kind_probe(task):
+    seed, lo, hi = task
+    p = Partial()
+    specs = []
+    for T in PROBE_TYPES:
+        syms = [["x", T]]
+        for k in PROBE_UNARY:
+            specs.append((k, {"syms": syms, "nodes": [["sym", 0], [k, 0]], "root": 1}))
+        for name in progs.NAMED + ["pi"]:
+            specs.append(("named:" + name, {"syms": syms, "nodes": [["sym", 0], ["named", name, 0]], "root": 1}))
+            specs.append(("named:" + name, {"syms": syms, "nodes": [["sym", 0], ["named", name, 0], ["real", 0], ["lt", 2, 2], ["named", "smallest", 0], ["select", 3, 1, 4]], "root": 5}))
+        for v in (["int", 2], ["float", 0.5], ["int", 0]):
+            specs.append(("const", {"syms": syms, "nodes": [["sym", 0], ["const", v, 0]], "root": 1}))
+            specs.append(("const", {"syms": syms, "nodes": [["sym", 0], ["const", v, 0], ["multiply", 1, 0]], "root": 2}))
+    for T1 in PROBE_TYPES:
+        for T2 in PROBE_TYPES:
+            syms = [["x", T1], ["y", T2]]
+            for k in PROBE_BINARY:
+                specs.append((k, {"syms": syms, "nodes": [["sym", 0], ["sym", 1], [k, 0, 1]], "root": 2}))
+            specs.append(("select", {"syms": syms, "nodes": [["sym", 0], ["sym", 1], ["real", 0], ["real", 1], ["lt", 2, 3], ["select", 4, 0, 1]], "root": 5}))
+            specs.append(("select", {"syms": syms, "nodes": [["sym", 0], ["sym", 1], ["real", 0], ["real", 1], ["lt", 2, 3], ["select", 4, 1, 0]], "root": 5}))
+    for k, spec in specs[lo:hi]:
+        try:
+            progs.build(spec)
+        except Exception:
+            p.count(1, "kind-probe/not-buildable")  # e.g. ordering comparison or hypot of complex operands
+            continue
+        for rw in (False, True):
+            case = {"spec": spec, "vseed": seed, "rewrite": rw}
+            bad, info = check(case)
+            p.count(1, "kind-probe")
+            p.label("kind-probe/runs", info["runs"])
+            if info["runs"]:
+                p.nontrivial(("kind-probe", k, [t for _, t in spec["syms"]], spec["nodes"][-1], rw))
+            for cls, what in bad:
+                p.violation(cls, "kind probe %s%r: %s" % (k, [t for _, t in spec["syms"]], what), case)
+    return p
